@@ -104,6 +104,8 @@ func constsWithPolarity(v ssa.Value, fn *ssa.Function) []constWhen {
 func checkC13(p *Prog, r *Report) {
 	ruleSharedStateInGoroutines(p, r, "R13.13", false)
 	ruleStatusFileOnly(p, r)
+	r.rule("R13.14", "A crash of the session is a failed session: recover() is called in errlog.HandleAbort only, which turns an abort into exit status 1. Any other recover between the device code and the status update lets a crashed approve continue to the point where the result is recorded (a named result left at its zero value reads as success).")
+	ruleRecoverSites(p, r, "R13.14", "a recovered panic reaches the status update as a normal return; unless the result is set explicitly the crashed approve is recorded as OK")
 	ruleScannerErr(p, r, "R13.11", map[string]bool{"doapprove": true, "status": true, "missing-approve": true, "main": true, "device": true, "errlog": true})
 	ruleMustCalls(p, r, "R-PH", "C13")
 	r.rule("R13.1", "Writer/reader agreement on status constants, derived from the code of both sides: the constant status.SetApprove stores for failed=false is a case of missing-approve's switch on Approve.Result whose branch takes Approve.Policy as the device's policy, and the constant for failed=true is not; the constant SetCompare stores for changed=false is a reader case taking Compare.Policy, the constant for changed=true is a reader case that clears the device policy (device is listed); SetCompare's sticky test compares with the very constant it writes for changed=true; the reader consults the compare slot only when Compare.Time is later than the accepted approve time.")
